@@ -367,3 +367,248 @@ Proof.
   destruct sub as [|nc nl ne nr]; [eauto|].
   destruct (rb_erase_at_ok _ _ _ _ _ Hz) as (t' & -> & R). eauto.
 Qed.
+
+(** hinted insert: the hint is some node of the tree *)
+Lemma zinv_locate h t : forall c sub c', zinv c t -> locate h t c = Some (sub, c') -> zinv c' sub.
+Proof.
+  induction t as [|k l IHl y r IHr]; intros c sub c' H; cbn [locate]; [discriminate|].
+  destruct (zinv_down _ _ _ _ _ H) as (Hl & Hr).
+  destruct (Nat.eqb _ _); [intros [= <- <-]; auto|].
+  destruct (locate h l _) as [[s1 c1]|] eqn:El.
+  - intros [= <- <-]. eapply IHl; eauto.
+  - intros Hf. eapply IHr; eauto.
+Qed.
+
+Theorem rb_insert_from_inv hint t x r :
+  rb_inv t -> rb_insert_from hint t x = Some r -> exists t', r = Some t' /\ rb_inv t'.
+Proof.
+  intros H. apply zinv_root in H. unfold rb_insert_from, insert_ctx.
+  destruct hint as [h|].
+  - destruct (locate h t []) as [[sub c]|] eqn:El; [|discriminate].
+    pose proof (zinv_locate _ _ _ _ _ H El) as Hz.
+    destruct (rb_insert_ok (descend x sub c) x) as (t' & E1 & R); [apply zinv_descend; auto|].
+    rewrite E1. intros [= <-]. eauto.
+  - destruct (rb_insert_ok (descend x t []) x) as (t' & E1 & R); [apply zinv_descend; auto|].
+    rewrite E1. intros [= <-]. eauto.
+Qed.
+
+(** * Rotations and recolourings do not change the in-order sequence *)
+
+Lemma rotate_inorder d t t' : rotate d t = Some t' -> inorder t' = inorder t.
+Proof.
+  unfold rotate. destruct t as [|xc l xe r]; cbn [unmk]; [discriminate|].
+  destruct d.
+  - destruct r as [|yc b ye cc]; cbn [unmk]; [discriminate|]. intros [= <-]. cbn. lnorm. reflexivity.
+  - destruct l as [|yc cc ye b]; cbn [unmk]; [discriminate|]. intros [= <-]. cbn. lnorm. reflexivity.
+Qed.
+
+Lemma plug_inorder_cong c a b : inorder a = inorder b -> inorder (plug c a) = inorder (plug c b).
+Proof. intros H. rewrite !inorder_plug, H. reflexivity. Qed.
+
+Lemma mk_opp d k a x b : mk (opp d) k a x b = mk d k b x a.
+Proof. destruct d; reflexivity. Qed.
+
+Lemma dir_eqb_eq a b : dir_eqb a b = true -> a = b.
+Proof. destruct a, b; cbn; congruence. Qed.
+Lemma dir_eqb_opp a b : dir_eqb a b = false -> a = opp b.
+Proof. destruct a, b; cbn; congruence. Qed.
+
+Lemma fix_ins_inorder : forall m c, (length c <= m)%nat -> forall x t,
+  fix_ins x c = Some t -> inorder t = inorder (plug c x).
+Proof.
+  induction m as [|m IH]; intros c Hlen x t.
+  { destruct c; [|cbn in Hlen; lia]. cbn. intros [= <-]; auto. }
+  destruct c as [|p up]; [cbn; intros [= <-]; auto|].
+  cbn [fix_ins]. destruct p as [pd pc pe ps]. cbn [fc]. destruct pc; [|intros [= <-]; auto].
+  destruct up as [|g up']; [discriminate|].
+  destruct g as [d gc ge y]. cbn [fd fs fe fc recolour].
+  destruct (is_red y) eqn:Ey.
+  - intros H. apply (IH up') in H; [|cbn in Hlen; lia]. rewrite H. cbn [plug].
+    apply plug_inorder_cong. unfold plug1. cbn [fd fc fe fs].
+    rewrite !inorder_mk, inorder_blacken. destruct d, pd; reflexivity.
+  - destruct (dir_eqb pd d) eqn:Ed.
+    + apply dir_eqb_eq in Ed. subst pd.
+      destruct (rotate (opp d) _) as [t0|] eqn:Er; [|discriminate]. intros [= <-].
+      cbn [plug]. apply plug_inorder_cong. apply rotate_inorder in Er. rewrite Er.
+      unfold plug1. cbn [fd fc fe fs]. rewrite !inorder_mk, inorder_setcol, !inorder_mk.
+      destruct d; reflexivity.
+    + apply dir_eqb_opp in Ed. subst pd.
+      destruct (rotate d _) as [px|] eqn:Ep; [|discriminate].
+      destruct (rotate (opp d) _) as [t0|] eqn:Er; [|discriminate]. intros [= <-].
+      cbn [plug]. apply plug_inorder_cong. apply rotate_inorder in Er. rewrite Er.
+      apply rotate_inorder in Ep.
+      unfold plug1. cbn [fd fc fe fs]. rewrite !inorder_mk, inorder_setcol, Ep, !inorder_mk.
+      destruct d; reflexivity.
+Qed.
+
+Lemma del_cases_inorder d x pc pe w :
+  match del_cases d x pc pe w with
+  | DFault => True
+  | Up t | Fin t => inorder t = inorder (mk d pc x pe w)
+  end.
+Proof.
+  unfold del_cases. destruct (unmk d w) as [[[[wc wa] we] wb]|] eqn:Ew; [|exact I].
+  apply unmk_mk in Ew. subst w.
+  destruct (negb (is_red wa) && negb (is_red wb)).
+  { rewrite !inorder_mk. destruct d; reflexivity. }
+  assert (K : forall w', inorder w' = inorder (mk d wc wa we wb) ->
+     match match unmk d w' with
+           | Some (_, wa', we', wb') =>
+             if isE wb' then DFault
+             else match rotate d (mk d Black x pe (mk d pc wa' we' (blacken wb'))) with
+                  | Some t => Fin t | None => DFault end
+           | None => DFault end with
+     | DFault => True
+     | Up t | Fin t => inorder t = inorder (mk d pc x pe (mk d wc wa we wb))
+     end).
+  { intros w' Hw'. destruct (unmk d w') as [[[[wc' wa'] we'] wb']|] eqn:Ew'; [|exact I].
+    apply unmk_mk in Ew'. subst w'. destruct (isE wb'); [exact I|].
+    destruct (rotate d _) as [t|] eqn:Er; [|exact I]. apply rotate_inorder in Er. rewrite Er.
+    rewrite !inorder_mk in *. rewrite inorder_blacken. destruct d; rewrite <- Hw'; reflexivity. }
+  destruct (is_red wb).
+  - apply K. reflexivity.
+  - destruct (rotate (opp d) _) as [w'|] eqn:Er; [|exact I]. apply K.
+    apply rotate_inorder in Er. rewrite Er. rewrite !inorder_mk, inorder_blacken. reflexivity.
+Qed.
+
+Lemma fix_del_inorder c : forall x t, fix_del x c = Some t -> inorder t = inorder (plug c x).
+Proof.
+  induction c as [|p up IH]; intros x t; cbn [fix_del].
+  { intros [= <-]. apply inorder_blacken. }
+  destruct (is_red x).
+  { intros [= <-]. apply (plug_inorder_cong (p :: up)), inorder_blacken. }
+  destruct p as [pd pc pe w]. cbn [fd fc fe fs].
+  match goal with |- context [dir_eqb ?d pd] => destruct (dir_eqb d pd) eqn:Ed end; [|discriminate].
+  apply dir_eqb_eq in Ed. rewrite Ed. clear Ed. cbn [negb].
+  destruct (unmk pd w) as [[[[wc wa] we] wb]|] eqn:Ew; [|discriminate].
+  apply unmk_mk in Ew. subst w. destruct wc.
+  - pose proof (del_cases_inorder pd x Red pe wa) as D.
+    destruct (del_cases pd x Red pe wa) as [x'|t0|]; [| |discriminate]; intros [= <-].
+    + cbn [plug]. apply plug_inorder_cong. unfold plug1. cbn [fd fc fe fs].
+      rewrite !inorder_mk, inorder_blacken, D, !inorder_mk. destruct pd; lnorm; reflexivity.
+    + rewrite inorder_blacken. cbn [plug]. apply plug_inorder_cong. unfold plug1. cbn [fd fc fe fs].
+      rewrite !inorder_mk, D, !inorder_mk. destruct pd; lnorm; reflexivity.
+  - pose proof (del_cases_inorder pd x pc pe (mk pd Black wa we wb)) as D.
+    destruct (del_cases pd x pc pe _) as [x'|t0|]; [| |discriminate].
+    + intros H. apply IH in H. rewrite H. cbn [plug]. apply plug_inorder_cong. exact D.
+    + intros [= <-]. rewrite inorder_blacken. cbn [plug]. apply plug_inorder_cong. exact D.
+Qed.
+
+(** the red-black operations have the in-order effect of the plain ones *)
+Theorem rb_insert_from_inorder hint t x t' :
+  rb_insert_from hint t x = Some (Some t') ->
+  exists t0, bt_insert_from hint t x = Some t0 /\ inorder t' = inorder t0.
+Proof.
+  unfold rb_insert_from, bt_insert_from. destruct (insert_ctx hint t x) as [c|]; [|discriminate].
+  destruct (fix_ins _ c) as [t1|] eqn:Ef; [|discriminate]. intros [= <-].
+  eexists; split; eauto. rewrite inorder_blacken.
+  rewrite (fix_ins_inorder _ _ (le_n _) _ _ Ef). apply plug_inorder_cong. reflexivity.
+Qed.
+
+Theorem rb_insert_inorder t x t' :
+  rb_insert t x = Some t' -> inorder t' = inorder (bt_insert t x).
+Proof.
+  unfold rb_insert, bt_insert. destruct (fix_ins _ _) as [t1|] eqn:Ef; [|discriminate].
+  intros [= <-]. rewrite inorder_blacken.
+  rewrite (fix_ins_inorder _ _ (le_n _) _ _ Ef). apply plug_inorder_cong. reflexivity.
+Qed.
+
+Theorem rb_erase_at_inorder nc nl ne nr c t' :
+  rb_erase_at nc nl ne nr c = Some t' -> inorder t' = inorder (bt_erase_at nc nl ne nr c).
+Proof.
+  unfold rb_erase_at. intros H.
+  assert (G : inorder t' = inorder (plug (hole_ctx (erase_zip nc nl ne nr)
+                 (option_map (fun f => recolour f nc) (z_y (erase_zip nc nl ne nr))) c)
+                 (z_x (erase_zip nc nl ne nr)))).
+  { destruct (z_col _); [injection H as <-; reflexivity|]. apply fix_del_inorder; auto. }
+  rewrite G, bt_erase_at_inorder, inorder_plug. apply erase_zip_inorder.
+  destruct (z_y _); cbn; auto.
+Qed.
+
+Theorem rb_erase_inorder t k r t' :
+  rb_erase t k = Some (r, t') -> r = fst (bt_erase t k) /\ inorder t' = inorder (snd (bt_erase t k)).
+Proof.
+  unfold rb_erase, bt_erase. destruct (find_ctx k t []) as [sub c].
+  destruct sub as [|nc nl ne nr]; [intros [= <- <-]; auto|].
+  destruct (rb_erase_at nc nl ne nr c) as [t1|] eqn:Ee; [|discriminate].
+  intros [= <- <-]. split; auto. apply rb_erase_at_inorder; auto.
+Qed.
+
+(** * Height bound *)
+
+Fixpoint height (t : tree) : nat :=
+  match t with E => O | T _ l _ r => S (Nat.max (height l) (height r)) end.
+Definition size (t : tree) : nat := length (inorder t).
+
+Lemma rbt_height t : forall n,
+  rbt t n -> (height t <= 2 * n + (if is_red t then 1 else 0))%nat /\ (2 ^ n <= size t + 1)%nat.
+Proof.
+  unfold size. induction t as [|c l IHl x r IHr]; intros n; cbn [rbt height inorder is_red].
+  - intros ->. cbn. lia.
+  - rewrite app_length. cbn [length]. destruct c.
+    + intros (Cl & Cr & Rl & Rr). apply IHl in Rl. apply IHr in Rr.
+      apply is_red_col in Cl, Cr. rewrite Cl in Rl. rewrite Cr in Rr. lia.
+    + destruct n as [|m]; [tauto|]. intros (Rl & Rr). apply IHl in Rl. apply IHr in Rr.
+      cbn [Nat.pow]. destruct (is_red l), (is_red r); lia.
+Qed.
+
+(** height <= 2*log2(size+1), stated without logarithms *)
+Theorem rb_height_bound t : rb_inv t -> (2 ^ height t <= (size t + 1) ^ 2)%nat.
+Proof.
+  intros (Hc & n & H). apply rbt_height in H. apply is_red_col in Hc. rewrite Hc in H.
+  destruct H as (Hh & Hs).
+  apply Nat.le_trans with (2 ^ (n * 2))%nat.
+  - apply Nat.pow_le_mono_r; lia.
+  - rewrite Nat.pow_mul_r. apply Nat.pow_le_mono_l; auto.
+Qed.
+
+(** ... in the form "half the height" *)
+Theorem rb_height_log t : rb_inv t -> (2 ^ (Nat.div2 (S (height t))) <= size t + 1)%nat.
+Proof.
+  intros (Hc & n & H). apply rbt_height in H. apply is_red_col in Hc. rewrite Hc in H.
+  destruct H as (Hh & Hs).
+  apply Nat.le_trans with (2 ^ n)%nat; auto. apply Nat.pow_le_mono_r; [lia|].
+  assert (Nat.div2 (S (height t)) <= Nat.div2 (S (2 * n)))%nat.
+  { rewrite !Nat.div2_div. apply Nat.div_le_mono; lia. }
+  rewrite Nat.div2_succ_double in H. auto.
+Qed.
+
+(** the value reported by cstl_bintree_height is [height] *)
+Lemma fold_max_snd l : forall a b,
+  snd (fold_left (fun (mm : N * N) h => (if (h <? fst mm)%N then h else fst mm,
+                                       if (snd mm <? h)%N then h else snd mm)) l (a, b))
+  = fold_left N.max l b.
+Proof.
+  induction l as [|h l IH]; intros a b; cbn [fold_left fst snd]; auto.
+  rewrite IH. f_equal. destruct (N.ltb_spec b h); lia.
+Qed.
+
+Lemma fold_max_nat l : forall b,
+  fold_left N.max (map N.of_nat l) (N.of_nat b) = N.of_nat (fold_left Nat.max l b).
+Proof.
+  induction l as [|h l IH]; intros b; cbn [map fold_left]; auto.
+  rewrite <- IH. f_equal. lia.
+Qed.
+
+Lemma leaf_depths_node c l x r d :
+  leaf_depths (T c l x r) d =
+  if isE l && isE r then [S d] else leaf_depths l (S d) ++ leaf_depths r (S d).
+Proof. destruct l, r; reflexivity. Qed.
+
+Lemma leaf_depths_max t : forall d b,
+  fold_left Nat.max (leaf_depths t d) b =
+  match t with E => b | _ => Nat.max b (d + height t) end.
+Proof.
+  induction t as [|c l IHl x r IHr]; intros d b; [reflexivity|].
+  rewrite leaf_depths_node. cbn [height].
+  destruct (isE l && isE r) eqn:El.
+  - apply andb_prop in El. destruct El. destruct l, r; try discriminate. cbn. lia.
+  - rewrite fold_left_app, IHl, IHr. destruct l, r; try discriminate; cbn [height]; lia.
+Qed.
+
+Theorem bt_height_max t : snd (bt_height t) = N.of_nat (height t).
+Proof.
+  unfold bt_height. destruct t as [|c l x r]; [reflexivity|].
+  rewrite fold_max_snd. change 0%N with (N.of_nat 0). rewrite fold_max_nat, leaf_depths_max.
+  rewrite Nat.max_0_l. reflexivity.
+Qed.
